@@ -525,14 +525,18 @@ def coerce (env : Env) (specMu : Bool := true) (subEnv : Env := env) : Nat → T
          | .func b m =>
            (match Sub.subAlg subEnv Sub.defaultFuel [] w' e' with
             | .yes _ => .ok (.func b m)
-            | _ => .err .subtype)
+            | .no => .err .subtype
+            | .out => .err .limit       -- the check ran out of its depth budget (a stack-guard error in the Rust)
+            | .panic p => .panic p)
          | _ => .err .subtype)
       | .service _ =>
         (match v with
          | .service b =>
            (match Sub.subAlg subEnv Sub.defaultFuel [] w' e' with
             | .yes _ => .ok (.service b)
-            | _ => .err .subtype)
+            | .no => .err .subtype
+            | .out => .err .limit
+            | .panic p => .panic p)
          | _ => .err .subtype)
       | .future => .ok .null
       | _ => .err .other)
